@@ -467,12 +467,20 @@ def gate_assign(pt, abi, a_spec, b_spec):
     return out
 
 
-def gate_method_call(pt, abi, a_spec, sig_b):
+def gate_method_call(pt, abi, a_spec, sig_b, shape="alone"):
     """InnerTxnBuilder.MethodCall with an ABI value of spec a for a parameter of signature
-    sig_b -> (accepted, spec PyTeal derived from the signature)"""
+    sig_b -> (accepted, spec PyTeal derived from the signature).  shape: the parameter alone | after a parameter given as a raw
+    expression | before one | between an ABI value and a raw expression (the decision about one argument must not depend on how
+    its neighbours are given)"""
     b2 = abi.type_specs_from_signature(f"m({sig_b})void")[0][0]
+    sig, args = {
+        "alone": (f"m({sig_b})void", lambda x: [x]),
+        "after-expr": (f"m(byte[],{sig_b})void", lambda x: [pt.Bytes(b"\x00\x01a"), x]),
+        "before-expr": (f"m({sig_b},uint64)void", lambda x: [x, pt.Itob(pt.Int(5))]),
+        "between": (f"m(uint64,byte[],{sig_b},uint8)void", lambda x: [abi.Uint64(), pt.Bytes(b"\x00\x00"), x, pt.Bytes(b"\x07")]),
+    }[shape]
     try:
-        pt.InnerTxnBuilder.MethodCall(app_id=pt.Int(1), method_signature=f"m({sig_b})void", args=[a_spec.new_instance()])
+        pt.InnerTxnBuilder.MethodCall(app_id=pt.Int(1), method_signature=sig, args=args(a_spec.new_instance()))
         return True, b2
     except (pt.TealTypeError, pt.TealInputError):
         return False, b2
@@ -669,18 +677,19 @@ def run(tier: str) -> int:
         sa, sb = str(oa), str(ob)
         if not (is_codec_str(sa) and is_codec_str(sb)):
             continue
-        try:
-            got, b2 = gate_method_call(pt, abi, oa, sb)
-            want = bool(fn(oa, b2))
-        except Exception:  # noqa: BLE001
-            continue
-        mc_n += 1
-        bad_accept = got and oracle_pair(ro, sa, sb, 2) is not None
-        if got != want or bad_accept:
-            mc_bad += 1
-            if mc_bad <= 3:
-                rep.violation(f"InnerTxnBuilder.MethodCall with argument {sa} for parameter {sb}: accepted={got}, type_spec_is_assignable_to={want}",
-                              {"a": a, "b": b, "str_a": sa, "str_b": sb, "kind": "gate-methodcall"}, no_input=not bad_accept)
+        for shape in ("alone", "after-expr", "before-expr", "between"):
+            try:
+                got, b2 = gate_method_call(pt, abi, oa, sb, shape)
+                want = bool(fn(oa, b2))
+            except Exception:  # noqa: BLE001
+                continue
+            mc_n += 1
+            bad_accept = got and oracle_pair(ro, sa, sb, 2) is not None
+            if got != want or bad_accept:
+                mc_bad += 1
+                if mc_bad <= 3:
+                    rep.violation(f"InnerTxnBuilder.MethodCall ({shape}) with argument {sa} for parameter {sb}: accepted={got}, type_spec_is_assignable_to={want}",
+                                  {"a": a, "b": b, "str_a": sa, "str_b": sb, "kind": "gate-methodcall", "shape": shape}, no_input=not bad_accept)
     tn, tbad = gate_txn_table(pt)
     for k, m, got in tbad[:3]:
         rep.violation(f"InnerTxnBuilder.MethodCall: a {k} transaction argument for a {m} parameter: accepted={got}",
@@ -768,7 +777,7 @@ def replay(path: str) -> int:
     if body.get("kind") == "gate-assign":
         print("assignment routes accepted:", gate_assign(pt, abi, oa, ob))
     if body.get("kind") == "gate-methodcall":
-        print("MethodCall accepted:", gate_method_call(pt, abi, oa, sb)[0])
+        print("MethodCall accepted:", gate_method_call(pt, abi, oa, sb, body.get("shape", "alone"))[0])
     if body.get("kind") == "gate-methodcall-txn":
         print("txn-argument table mismatches:", gate_txn_table(pt)[1])
     drv.close()
